@@ -13,9 +13,13 @@ open Eav
 theorem no_mutable_globals : Gen.mutableGlobals = [] := by decide
 
 /-- external symbols the library may call; none of them keeps hidden state across calls
-(`strtok`, `setlocale`, `localeconv`, `rand`, `getenv`, `strerror` … are absent) -/
+(the memory / string / ctype functions POSIX marks MT-Safe, the allocator, the three IDN libraries' entry points;
+`strtok`, `setlocale`, `localeconv`, `rand`, `getenv`, `strerror`, stdio … are absent) -/
 def mtSafe : List String := ["_GLOBAL_OFFSET_TABLE_", "__assert_fail", "__ctype_b_loc", "__stack_chk_fail", "abort", "free", "malloc",
-  "calloc", "memchr", "memcpy", "memcmp", "strchr", "strlen", "strncasecmp", "strrchr", "strspn", "strndup", "strnlen",
+  "calloc", "realloc", "memchr", "memrchr", "rawmemchr", "memcpy", "mempcpy", "memmove", "memset", "memcmp", "strchr", "strchrnul", "strlen",
+  "strcmp", "strncmp", "strcasecmp", "strncasecmp", "strrchr", "strspn", "strcspn", "strpbrk", "strstr", "strcpy", "strncpy", "stpcpy",
+  "strcat", "strncat", "strdup", "strndup", "strnlen", "tolower", "toupper", "__ctype_tolower_loc", "__ctype_toupper_loc",
+  "__memcpy_chk", "__memset_chk", "__strcpy_chk", "__strncpy_chk", "__memmove_chk",
   "idn2_strerror", "idn2_to_ascii_8z", "idn2_lookup_ul", "idn2_free",
   "idna_strerror", "idna_to_ascii_lz",
   "idn_res_encodename", "idn_resconf_create", "idn_resconf_destroy", "idn_resconf_initialize", "idn_result_tostring"]
